@@ -62,7 +62,7 @@ AlphaMid ==
   \cup {It("data", nm, "i16", 3, "", 0, 0, 0) : nm \in BOOLEAN} \cup {It("data", nm, "i64", 0, "", 0, 0, 0) : nm \in BOOLEAN}
   \cup {It("data", nm, "ld", 1, "", 0, 0, 0) : nm \in BOOLEAN}
   \cup Bss({0, 9}) \cup Ref({<<"prev", 5>>, <<"next", 0>>}) \cup LRef({<<2, 1, 7>>}) \cup Expr({"i32"}) \cup {Proto}
-  \cup Str({5}, BOOLEAN)
+  \cup Str({5}, {FALSE})
 AlphaSmall ==
   {It("data", nm, "i8", 3, "", 0, 0, 0) : nm \in BOOLEAN} \cup {It("bss", nm, "", 1, "", 0, 0, 0) : nm \in BOOLEAN}
   \cup {It("ref", FALSE, "", 0, "next", 0, 0, 0), It("ref", TRUE, "", 0, "prev", -3, 0, 0)}
